@@ -1,5 +1,6 @@
 import Ebu.Props.C03Facts
 import Ebu.Proofs.ConcProgress
+import Ebu.Proofs.ConcTermination
 import Ebu.Spec.Flow
 /-!
 C03 — Concurrent use of the API is free of data races and deadlocks (second part).
@@ -34,6 +35,30 @@ theorem deadlock_needs_the_exception :
       Ebu.Conc.ProgressExample.dlState.unfinished ∧ ¬ Ebu.Conc.ProgressExample.dlState.canStep) ∧
     ¬ ∃ ρ, Ebu.Conc.Ranked ρ Ebu.Conc.ProgressExample.dlProgs :=
   ⟨Ebu.Conc.ProgressExample.dl_deadlock, Ebu.Conc.ProgressExample.dlProgs_not_ranked⟩
+
+/-- TERMINATION.  When no handler publishes – directly or through other handlers – an event that is delivered back to
+itself (a STRICT rank on event types: every handler body publishes only strictly lower types), every schedule is finite:
+the number of steps any schedule of the program can take is bounded by a number that depends on the program alone
+(number of subscriptions, body lengths, ranks).  No livelock, whatever the scheduler does. -/
+theorem runs_terminate (ρ : Nat → Nat) (progs : List (List Ebu.Conc.Op)) (hr : Ebu.Conc.RankedStrict ρ progs) :
+    ∃ bound : Nat, ∀ (sched : List Nat) (s : Ebu.Conc.Sys),
+      Ebu.Conc.runSched (Ebu.Conc.initSys progs) sched = some s → sched.length ≤ bound :=
+  Ebu.Conc.runs_terminate ρ progs hr
+
+/-- … and every run can be continued to the end, where every goroutine has finished and nothing is in flight: together
+with `deadlock_free` and `runs_terminate`, whatever the scheduler does every `Publish`, `Wait` and handler invocation
+returns after finitely many steps -/
+theorem every_run_completes (ρ : Nat → Nat) (progs : List (List Ebu.Conc.Op)) (hr : Ebu.Conc.RankedStrict ρ progs)
+    (s : Ebu.Conc.Sys) (h : Ebu.Conc.Reachable progs s) :
+    ∃ (sched : List Nat) (s' : Ebu.Conc.Sys), Ebu.Conc.runSched s sched = some s' ∧ s'.allDone ∧ s'.sh.inflight = 0 :=
+  Ebu.Conc.every_run_completes ρ progs hr s h
+
+/-- a strict rank is a rank in the sense of `deadlock_free` (the example program of `deadlock_free_applies`, whose
+Async+Sequential handler re-publishes its own type, has a rank but no strict one: it is deadlock free, yet one of its
+schedules is only finite because a goroutine's handler body is) -/
+theorem strict_rank_is_rank (ρ : Nat → Nat) (progs : List (List Ebu.Conc.Op)) (hr : Ebu.Conc.RankedStrict ρ progs) :
+    Ebu.Conc.Ranked ρ progs :=
+  Ebu.Conc.rankedStrict_ranked ρ progs hr
 
 /-! ### obligations on the control flow of the CURRENT source (`Ebu/Generated/Flow.lean`, regenerated on every run)
 
